@@ -701,6 +701,30 @@ fn check_trees<S: Open>(
                 }
                 _ => {} // nothing to check
             }
+
+            // The tree streamers (also the one used here, `ls`, `restore`) follow the subtree of *any* node, not only
+            // of directories. So, such a subtree is used, too, and its pack must be considered as well.
+            if node.node_type != NodeType::Dir {
+                match node.subtree {
+                    None => {}
+                    Some(tree) if tree.is_null() => {
+                        collector.add_error(CheckError::NullSubTree {
+                            dir: path.join(node.name()),
+                        });
+                    }
+                    Some(id) => match index.get_tree(&id) {
+                        None => {
+                            collector.add_error(CheckError::SubTreeMissingInIndex {
+                                dir: path.join(node.name()),
+                                blob_id: id,
+                            });
+                        }
+                        Some(entry) => {
+                            _ = packs.insert(entry.pack);
+                        }
+                    },
+                }
+            }
         }
     }
 
